@@ -96,6 +96,10 @@ func (m *ConnackMessage) Decode(src []byte) (int, error) {
 		return total, err
 	}
 
+	if m.remlen != 2 {
+		return total, fmt.Errorf("connack/Decode: Invalid remaining length. Expecting %d, got %d", 2, m.remlen)
+	}
+
 	b := src[total]
 
 	if b&254 != 0 {
@@ -152,6 +156,8 @@ func (m *ConnackMessage) Encode(dst []byte) (int, error) {
 
 	if m.sessionPresent {
 		dst[total] = 1
+	} else {
+		dst[total] = 0
 	}
 	total++
 
